@@ -466,8 +466,9 @@ class ImportUtilities:
             # Check that the weight is between 0 and 1
             assert 0 <= weight <= 1
 
-            if percentage > 1e5 or percentage < -100:
-                # If this is a nonsensical percentage reduction, add the weight to the rejected_weighting_sum
+            if not (-100 <= percentage <= 1e5):
+                # If this is a nonsensical percentage reduction (out of range, or NaN, which compares false with
+                # everything), add the weight to the rejected_weighting_sum
                 rejected_weighting_sum += weight
             else:
                 # If this is a sensible percentage reduction, add the percentage times the weight to the mean_value
